@@ -63,3 +63,14 @@ def dd_scale(pr, nacp):
     """Magnitude of the dipole-dipole term: (4 pi / V) f max|Z|^2 / min eig(eps) / min mass."""
     Z, eps = np.array(nacp["born"]), np.array(nacp["dielectric"])
     return float(4 * np.pi / pr.volume * nacp["factor"] * np.abs(Z).max() ** 2 / np.linalg.eigvalsh((eps + eps.T) / 2).min() / np.min(pr.masses))
+
+
+def gl_offzone_tolerance(pr, nacp, fscale):
+    """Gonze-Lee away from the first-BZ representative used in its construction: the reciprocal sum is cut where
+    exp(-G.eps.G/4L^2) = 1e-10 for the *isotropic average* of eps (code: GeG = G_cutoff^2 tr(eps)/3); along the softest principal
+    axis the neglected terms are 1e-10^(eps_min/eps_avg). Tolerance = (1e-3 + 30 x that) x dipole-dipole scale, capped at 5 %."""
+    eps = np.array(nacp["dielectric"], float)
+    ev = np.linalg.eigvalsh((eps + eps.T) / 2)
+    r = float(ev.min() / ev.mean())
+    rel = min(0.05, 1e-3 + 30 * 10 ** (-10 * r))
+    return rel * max(fscale, dd_scale(pr, nacp)), r
